@@ -305,6 +305,35 @@ def F19_student_nu_always_inf():
     return {"fails": not ok, "detail": f"20000 bivariate t3 draws (default_rng(0)): fitted nu={nu!r} (want in [2,4.5]), Sigma[0,0]={S[0,0]:.3f}"}
 
 
+# ---------------------------------------------------------------- C03 / F16 F17
+def _c03_cell(kernel, boundary, sigma, beta, target, seed):
+    from . import c03
+    r = c03.one_step_cell(kernel, boundary, sigma, beta, target, seed, n=200000, steps=1)
+    detail = (f"{kernel} x {boundary}, {target} target, sigma={sigma}, beta={beta}, seed={seed}, N=200000: one step moves the "
+              f"20-bin histogram to chi2={r['chi2']:.1f} (threshold {r['threshold']:.1f} = p<1e-9; before the step "
+              f"{r['chi2_before']:.1f}); edge-bin ratio after/expected = {r['edge_ratio']}")
+    return {"fails": bool(r["fails"]), "detail": detail}
+
+
+def F16_hard_boundary_redraw():
+    """RWM, hard boundaries, uniform target: redraw-until-inside is not corrected in the acceptance -> edges depleted"""
+    return _c03_cell("rwm", "hard", 0.5, 1.0, "uniform", 160316)
+
+
+def F17_tpcn_fold():
+    """tpCN on a periodic coordinate, uniform target: Student-t ratio taken at the folded point -> edges over-populated"""
+    return _c03_cell("tpcn", "periodic", 0.5, 1.0, "uniform", 170317)
+
+
+# ---------------------------------------------------------------- C06 / F20
+def F20_syst_count_in_tolerance_band():
+    """floor/ceil count law read literally on an un-renormalised vector inside the accepted tolerance"""
+    w = [2.0 ** -30, 1.0]
+    r = _syst(2, w, 0.0)
+    copies1 = r.count(1) if isinstance(r, list) else None
+    return {"fails": copies1 != 2, "detail": f"n=2, w=[2^-30, 1.0] (sum-1=9.3e-10 < sqrt(eps): not renormalised), u0=0 -> {r}: index 1 copied {copies1} time(s), n*w_1 = 2 exactly"}
+
+
 ALL = {k: v for k, v in list(globals().items()) if k[:1] == "F" and callable(v)}
 
 if __name__ == "__main__":
